@@ -147,7 +147,7 @@ func RunC02(run *core.Run, backend *SQLBackend, queries []Query, b Bounds) {
 		ensureKinds(km, kindIDs, d)
 		var evals, nonEmpty, compared int64
 		outside := false
-		d.Enumerate(func(g *gm.Graph) bool {
+		judge := func(g *gm.Graph) bool {
 			evals++
 			ob := baseStmt.eval(g, kindIDs)
 			if ob.Outside || ob.Internal {
@@ -207,7 +207,19 @@ func RunC02(run *core.Run, backend *SQLBackend, queries []Query, b Bounds) {
 				}
 			}
 			return true
-		})
+		}
+		d.Enumerate(judge)
+		if q.Source != "enum" {
+			budget := b.Budget
+			if q.Budget > 0 {
+				budget = q.Budget
+			}
+			n, truncated := WitnessGraphs(m, q.Params, d, budget, judge)
+			run.Add("witness_neighbourhood_graphs", int64(n))
+			if truncated {
+				run.Add("witness_neighbourhoods_cut_by_budget", 1)
+			}
+		}
 		run.Add("evaluations", evals)
 		run.Add("configuration_comparisons", compared)
 		if outside {
